@@ -157,7 +157,7 @@ def main(argv):
     res.streams["SEARCH-comments"] = {
         "programs": len(cases), "driver_runs_checked": checked, "comments_injected": ncomments,
         "known_class_hits": known_hits, "generator": L.generator_distribution(progs),
-        "parser_rejects": sum(1 for sc in cases if sc.lib1[0] != "OK")}
+        "parser_rejects": L.check_reject_rate(res, cases)}
     res.assumptions = [
         "comment = // up to end of line outside string literals; string literals have no escapes (grammar.pest)",
         "string literals containing a double quote are not generated: expr_to_source escapes them with a backslash "
